@@ -72,6 +72,9 @@ func (p *Prog) REQ() map[*ssa.Function]bool {
 	add(p.Meth("flamego", "Flame", "ServeHTTP"))
 	add(p.Meth("flamego", "router", "ServeHTTP"))
 	add(p.Meth("flamego", "router", "URLPath"))
+	// bridge: router.contextCreator is a function-valued field set at construction time
+	add(p.Meth("flamego", "Flame", "createContext"))
+	add(p.Fn("flamego", "newContext"))
 	perRequest := []string{"context", "responseWriter", "render", "Request", "RequestBody"}
 	for _, fn := range p.Funcs() {
 		if r := fn.Signature.Recv(); r != nil && fn.Parent() == nil && fn.Pkg == p.SSA["flamego"] {
@@ -157,6 +160,9 @@ func (p *Prog) REQ() map[*ssa.Function]bool {
 func (p *Prog) REQList() []*ssa.Function {
 	var out []*ssa.Function
 	for f := range p.REQ() {
+		if f.Synthetic != "" {
+			continue // promotion wrappers / bound-method thunks: traversed, not analysed as source
+		}
 		out = append(out, f)
 	}
 	sort.Slice(out, func(i, j int) bool { return p.FuncKey(out[i]) < p.FuncKey(out[j]) })
